@@ -73,10 +73,12 @@ fn gen_op(cx: &mut Cx, k: u64, h: &Arc<Honest>) -> Op {
             let msgs: Vec<Bytes> = (0..l).map(|i| bytes_for(seed, b"c10-sm", k * 10000 + i as u64, match long_msg { Some((at, n)) if at == i => n, _ => 1 + i % 17 })).collect();
             let header: Opt = match cx.ch.choose("sign_hdr", 6) { 0 => None, 1 => Some(vec![]), 2 => Some(bytes_for(seed, b"c10-h", k, 16)), 3 => Some(bytes_for(seed, b"c10-h", k, 255)), 4 => Some(bytes_for(seed, b"c10-h", k, 256)), _ => Some(bytes_for(seed, b"c10-h", k, if big && cx.ch.chance("sign_hdr_64k", 1, 3) { 65536 } else { pick_len(cx, "sign_hdr_len", &[300, 4096, 4097, 6000, 1023, 1024, 1025]) })) };
             let ikm = bytes_for(seed, b"c10-sk", k, 32);
+            // (the IETF fixtures sign under a public key that is not the secret key's: signature007)
+            let foreign_pk = cx.ch.chance("sign_foreign_pk", 1, 6);
             let (m1, h1, i1) = (msgs.clone(), header.clone(), ikm.clone());
             Op { label: format!("sign({},L={l},header={:?})", s.name(), header.as_ref().map(|x| x.len())), compare_octets: true,
-                lib: Arc::new(Box::new(move || { let (sk, pk) = api::keygen(s, &i1, None, None)?; api::sign(s, &sk, &pk, &h1, &Some(m1.clone())) })),
-                model: Box::new(move || { let sk = rm::keygen(s, &ikm, &[], None).map_err(|e| e.to_string())?; let pk = rm::sk_to_pk(&sk); Ok(rm::sign(s, &sk, &pk, header.as_deref().unwrap_or(&[]), &msgs).map_err(|e| e.to_string())?.to_bytes().to_vec()) }) }
+                lib: Arc::new(Box::new(move || { let (sk, pk) = api::keygen(s, &i1, None, None)?; let pk = if foreign_pk { api::keygen(s, &[i1.clone(), vec![1]].concat(), None, None)?.1 } else { pk }; api::sign(s, &sk, &pk, &h1, &Some(m1.clone())) })),
+                model: Box::new(move || { let sk = rm::keygen(s, &ikm, &[], None).map_err(|e| e.to_string())?; let pk = if foreign_pk { rm::sk_to_pk(&rm::keygen(s, &[ikm.clone(), vec![1]].concat(), &[], None).map_err(|e| e.to_string())?) } else { rm::sk_to_pk(&sk) }; Ok(rm::sign(s, &sk, &pk, header.as_deref().unwrap_or(&[]), &msgs).map_err(|e| e.to_string())?.to_bytes().to_vec()) }) }
         }
         5 => {
             // BlindSign on the run's fixed request (and without a request)
@@ -86,10 +88,14 @@ fn gen_op(cx: &mut Cx, k: u64, h: &Arc<Honest>) -> Op {
             let msgs: Vec<Bytes> = (0..l).map(|i| bytes_for(seed, b"c10-bm", k * 100 + i as u64, 3 + i)).collect();
             let header: Opt = if cx.ch.chance("bs_hdr", 1, 2) { Some(bytes_for(seed, b"c10-bh", k, 9)) } else { None };
             let s = h.suite;
-            let (m1, h1, hh1) = (msgs.clone(), header.clone(), hh.clone());
-            Op { label: format!("blind_sign({},L={l},commit={with})", s.name()), compare_octets: true,
-                lib: Arc::new(Box::new(move || api::blind_sign(s, &hh1.sk, &hh1.pk, &if with { Some(hh1.cwp.clone()) } else { None }, &h1, &Some(m1.clone())))),
-                model: Box::new(move || { let sk = rm::octets_to_scalar(&hh.sk).map_err(|e| e.to_string())?; let pk: [u8; 96] = hh.pk.as_slice().try_into().unwrap(); Ok(rm::blind_sign(s, &sk, &pk, if with { &hh.cwp } else { &[] }, header.as_deref().unwrap_or(&[]), &msgs).map_err(|e| e.to_string())?.to_bytes().to_vec()) }) }
+            // the public key only enters BlindSign as octets in the domain: also with a key that
+            // is not the secret key's (the draft does not ask the signer to check that)
+            let foreign = cx.ch.chance("bs_foreign_pk", 1, 3);
+            let pk_used: Bytes = if foreign { rm::sk_to_pk(&rm::keygen(s, &bytes_for(seed, b"c10-foreign", k, 32), &[], None).unwrap()).to_vec() } else { hh.pk.clone() };
+            let (m1, h1, hh1, pk1) = (msgs.clone(), header.clone(), hh.clone(), pk_used.clone());
+            Op { label: format!("blind_sign({},L={l},commit={with},foreign_pk={foreign})", s.name()), compare_octets: true,
+                lib: Arc::new(Box::new(move || api::blind_sign(s, &hh1.sk, &pk1, &if with { Some(hh1.cwp.clone()) } else { None }, &h1, &Some(m1.clone())))),
+                model: Box::new(move || { let sk = rm::octets_to_scalar(&hh.sk).map_err(|e| e.to_string())?; let pk: [u8; 96] = pk_used.as_slice().try_into().unwrap(); Ok(rm::blind_sign(s, &sk, &pk, if with { &hh.cwp } else { &[] }, header.as_deref().unwrap_or(&[]), &msgs).map_err(|e| e.to_string())?.to_bytes().to_vec()) }) }
         }
         _ => gen_decision_op(cx, k, h),
     }
@@ -190,7 +196,7 @@ pub fn run_c10(cx: &mut Cx) {
     let (hk, phk) = (cx.ch.choose("honest_header_kind", 3), cx.ch.choose("honest_ph_kind", 3));
     let (hl, hm) = (1 + cx.ch.choose("honest_L", 5) as usize, cx.ch.choose("honest_M", 4) as usize);
     cx.step(nodes[0], "honest-session", StepOpts::default(), move || crate::scen_robust::make_honest_with(suite, seed, hl, hm, hk, phk), move |cx, st| {
-        let h = match st.out { Ok(Ok(h)) => Arc::new(h), other => { cx.log(format!("honest session failed: {:?}", other.err())); return; } };
+        let h = match st.out { Ok(Ok(h)) => Arc::new(h), other => { cx.violation("C10", "honest-session/failed".into(), format!("an honest key generation / issuance / presentation the model completes failed: {:?}", other.err())); return; } };
         let n_ops = 12 + cx.ch.choose("ops", 20);
         for k in 0..n_ops + 2 {
             // the last two operations of every run walk through ALL generator counts 0..=N (N = 64
@@ -240,4 +246,5 @@ pub fn run_c10(cx: &mut Cx) {
     cx.run();
     if cx.ch.chance("concurrent_burst", 1, 6) { crate::scen_burst::generator_burst(cx, "C10"); }
     if cx.ch.chance("many_keys_window", 1, 4) { crate::scen_burst::many_keys_window(cx); }
+    if cx.ch.chance("cold_start", 1, 8) { crate::scen_burst::cold_start(cx); }
 }
